@@ -204,6 +204,9 @@ func (fs *fnset) fnMap(x int) (int, error) {
 }
 
 func images(x int) []int {
+	if x%3 == 0 {
+		return nil
+	}
 	if x%2 == 1 {
 		return []int{10 * x, 10*x + 1}
 	}
